@@ -3,6 +3,7 @@ package bridgesync
 import (
 	"math/big"
 
+	aggkitcommon "github.com/agglayer/aggkit/common"
 	"github.com/agglayer/aggkit/internal/zzverif"
 	"github.com/ethereum/go-ethereum/common"
 )
@@ -59,5 +60,27 @@ func ZZVerif_C19_DecodeEncode() {
 	var exp common.Hash
 	copy(exp[23:], b)
 	zzverif.Assert("decoded triple has the contract layout", zzRefGlobalIndex32(m, r, l) == exp)
+	zzverif.Reach("end")
+}
+
+// ZZVerif_C19_Consumers: the consumers of the composed value agree with the contract layout: the little-endian encoding used
+// for the certificate commitments is the byte-reversed 32-byte word, and the conversion of a claim to an imported exit
+// (decode, then recompose for hashing) keeps the three parts.
+func ZZVerif_C19_Consumers() {
+	m := zzverif.Bool("mainnet")
+	r := zzverif.U32("rollup")
+	l := zzverif.U32("leaf")
+	gi := GenerateGlobalIndex(m, r, l)
+	expR := r
+	if m {
+		expR = 0
+	}
+	want := zzRefGlobalIndex32(m, expR, l)
+	le := aggkitcommon.BigIntToLittleEndianBytes(gi)
+	ok := len(le) == 32
+	for i := 0; ok && i < 32; i++ {
+		ok = le[i] == want[31-i]
+	}
+	zzverif.Assert("little-endian encoding is the byte-reversed contract word", ok)
 	zzverif.Reach("end")
 }
